@@ -596,7 +596,83 @@ def rule_view_hands_out_copies(ctx: Ctx, rep: Report) -> None:
     rep.floor(rule, 3)
 
 
+_DECIMAL_ROUNDERS = {"quantize", "normalize", "to_integral_value", "to_integral", "to_integral_exact", "scaleb", "sqrt", "exp", "ln", "log10", "fma", "remainder_near"}
+
+
+def rule_decimal_context_pinned(ctx: Ctx, rep: Report) -> None:
+    """C20.decimal_context_pinned: Decimal arithmetic rounds to the *thread's* context
+    -- a precision, a rounding mode, traps that any caller may have changed
+    before -- while construction, comparison, `as_integer_ratio` and `int()`
+    read none. Every operation of the library that reads it (+ - * / // % **
+    on a Decimal, unary + and -, quantize/normalize/to_integral_value/...)
+    runs inside a `with localcontext(...)` whose precision the library sets:
+    a module `Context(prec=...)` constant, or `ctx.prec = ...` in the block.
+    A bare `localcontext()` is a copy of the caller's and pins nothing."""
+    rule = "C20.decimal_context_pinned"
+    n = 0
+    for mname, mi in sorted(ctx.prog.modules.items()):
+        imports_decimal = any(isinstance(s, ast.ImportFrom) and s.module == "decimal" or isinstance(s, ast.Import) and any(a.name == "decimal" for a in s.names) for s in mi.tree.body)
+        if not imports_decimal:
+            continue
+        consts = {s.targets[0].id for s in mi.tree.body if isinstance(s, ast.Assign) and isinstance(s.targets[0], ast.Name) and isinstance(s.value, ast.Call) and call_name(s.value) == "Decimal"}
+        pinned_ctx = {s.targets[0].id for s in mi.tree.body if isinstance(s, ast.Assign) and isinstance(s.targets[0], ast.Name) and isinstance(s.value, ast.Call) and call_name(s.value) == "Context" and any(k.arg == "prec" for k in s.value.keywords)}
+        for q, fi in sorted(ctx.prog.functions.items()):
+            if fi.module is not mi:
+                continue
+            dec = set(consts)
+            a = fi.node.args
+            for p_ in a.posonlyargs + a.args + a.kwonlyargs:
+                if p_.annotation is not None and norm(p_.annotation) in ("Decimal", "decimal.Decimal"):
+                    dec.add(p_.arg)
+            for s in own_nodes(fi.node):
+                if isinstance(s, ast.Assign) and len(s.targets) == 1 and isinstance(s.targets[0], ast.Name) and isinstance(s.value, ast.Call):
+                    tgt = ctx.resolve_call(fi, s.value)
+                    callee = ctx.prog.functions.get(tgt) if tgt else None
+                    if call_name(s.value) == "Decimal" or (callee is not None and callee.node.returns is not None and norm(callee.node.returns) == "Decimal"):
+                        dec.add(s.targets[0].id)
+
+            def is_dec(e: ast.AST) -> bool:
+                return (isinstance(e, ast.Name) and e.id in dec) or (isinstance(e, ast.Call) and call_name(e) == "Decimal") or \
+                    (isinstance(e, ast.BinOp) and (is_dec(e.left) or is_dec(e.right)))
+
+            def pinned(node: ast.AST) -> bool:
+                p_ = parent(node)
+                while p_ is not None and p_ is not fi.node:
+                    if isinstance(p_, ast.With):
+                        for item in p_.items:
+                            c = item.context_expr
+                            if isinstance(c, ast.Call) and call_name(c) == "localcontext":
+                                if c.args and isinstance(c.args[0], ast.Name) and c.args[0].id in pinned_ctx:
+                                    return True
+                                v = item.optional_vars
+                                if isinstance(v, ast.Name) and any(isinstance(t, ast.Assign) and norm(t.targets[0]) == f"{v.id}.prec" and t.lineno < node.lineno for b in p_.body for t in ast.walk(b)):
+                                    return True
+                    p_ = parent(p_)
+                return False
+
+            for e in sorted((e for e in own_nodes(fi.node) if isinstance(e, (ast.BinOp, ast.UnaryOp, ast.Call, ast.AugAssign))), key=lambda e: (e.lineno, e.col_offset)):
+                reads = False
+                if isinstance(e, ast.BinOp) and isinstance(e.op, (ast.Add, ast.Sub, ast.Mult, ast.Div, ast.FloorDiv, ast.Mod, ast.Pow)):
+                    reads = (is_dec(e.left) or is_dec(e.right)) and not isinstance(parent(e), ast.BinOp)
+                elif isinstance(e, ast.AugAssign):
+                    reads = is_dec(e.target) or is_dec(e.value)
+                elif isinstance(e, ast.UnaryOp) and isinstance(e.op, (ast.USub, ast.UAdd)):
+                    reads = is_dec(e.operand)
+                elif isinstance(e, ast.Call) and isinstance(e.func, ast.Attribute) and e.func.attr in _DECIMAL_ROUNDERS:
+                    # Decimal.normalize() takes no argument, unicodedata.normalize(form, text) two
+                    reads = is_dec(e.func.value) or (e.func.attr != "normalize" and e.func.attr not in ("sqrt", "exp", "ln", "log10")) or (e.func.attr == "normalize" and not e.args)
+                if not reads:
+                    continue
+                n += 1
+                ok = pinned(e)
+                rep.ob(rule, f"{q}:{norm(e)[:40]}", ok, fi.where(e), "under a context whose precision the library sets" if ok else
+                       f"`{norm(e)}` rounds to whatever Decimal context the calling thread carries: under `getcontext().prec = 5` the answer is another number, or an InvalidOperation")
+    rep.floor(rule, 4)
+
+
 RULES = [
+    ("C20.decimal_context_pinned", rule_decimal_context_pinned),
+
     ("C20.view_hands_out_copies", rule_view_hands_out_copies),
     ("C20.cache_key_complete", rule_cache_key_complete),
     ("C20.memo_key_complete", rule_memo_key_complete_),
